@@ -15,9 +15,9 @@ META = {
     "engine": "E1 runtime scenario engine",
     "rule": (
         "seeded random histories of 2-5 runner generations (a new ServiceRunner each, or - 30 % - the same instance accepting again); each generation: a payload population (none / "
-        "sleeping and spinning coroutines / blocked threads / 1-3 submitter threads adopting payloads "
+        "sleeping and spinning coroutines / blocked threads / trio payloads that keep calling execute(flavour=asyncio) / 1-3 submitter threads adopting payloads "
         "concurrently; before a third of the shutdowns 1-2 coroutine payloads that answer their cancellation by raising or by returning a value), 0-3 concurrent accept() attempts by other runners while it runs, accept_delay "
-        "0.01-0.3 s, and an ending in {shutdown from an outside thread, from a thread payload, two or three "
+        "0.01-0.3 s, and an ending in {shutdown from an outside thread, from a thread payload, from a worker thread of a trio / asyncio payload that waits for it, two or three "
         "concurrent shutdowns, SIGINT to the main thread, KeyboardInterrupt raised in an asyncio / thread / "
         "trio payload, Exception failure, orphaned return, BaseException failure, shutdown racing a failing "
         "payload by -30..+30 ms}; line-level delay injection (with longer delays inside stop / shutdown); kind=late_stop: six forced schedules (a shutdown() preempted inside stop() before its 1st / 2nd / 3rd close request while the runtime ends by another shutdown or by a failure, resuming between the loop's last turn and loop.close()); kind=polling: the accept loop alone under a "
@@ -30,7 +30,7 @@ META = {
     ],
     "shard_timeout": {"quick": 900, "thorough": 3600},
 }
-ENDINGS = ["shutdown_outside", "shutdown_thread", "shutdown_double", "sigint", "kbint_asyncio", "kbint_thread", "kbint_trio",
+ENDINGS = ["shutdown_outside", "shutdown_thread", "shutdown_double", "shutdown_trio_worker", "shutdown_asyncio_worker", "sigint", "kbint_asyncio", "kbint_thread", "kbint_trio",
            "fail_exception", "fail_return", "fail_base", "race_failure"]
 
 
@@ -43,7 +43,14 @@ def plan(tier, seed):
 def gen_generation(rnd, index, ending):
     gen = {"accept_delay": rnd.choice([0.01, 0.03, 0.05, 0.1, 0.3]), "payloads": [], "services": [], "grace": 0.15}
     script = [["wait_running", 10]]
-    population = rnd.choice(["none", "sleepers", "sleepers", "blocked", "mixed", "submitters"])
+    population = rnd.choice(["none", "sleepers", "sleepers", "blocked", "mixed", "submitters", "cross"])
+    if population == "cross":
+        # trio payloads that keep calling into the asyncio runner: one of them is usually inside execute() when the end comes
+        for i in range(rnd.randint(1, 3)):
+            gen["payloads"].append({"id": "xs%d" % i, "flavour": "asyncio", "executed": True, "cleanup": {"kind": "none"},
+                                    "program": [["sleep", rnd.choice([0.01, 0.02, 0.04])], ["return", "none"]]})
+            gen["payloads"].append({"id": "cross%d" % i, "flavour": "trio", "when": "queued", "cleanup": {"kind": "none"},
+                                    "program": [["sleep", 0.02], ["exec_loop", "xs%d" % i, 400, rnd.choice([0.0, 0.005])]]})
     if population in ("sleepers", "mixed", "submitters"):
         for i in range(rnd.randint(1, 4)):
             flavour = rnd.choice(common.COROUTINE)
@@ -94,6 +101,11 @@ def gen_generation(rnd, index, ending):
         script.append(["shutdown"])
     elif ending == "shutdown_thread":
         gen["payloads"].append({"id": "trigger", "flavour": "threading", "program": [["shutdown"]], "cleanup": {"kind": "none"}})
+        script.append(["adopt", "trigger"])
+    elif ending in ("shutdown_trio_worker", "shutdown_asyncio_worker"):
+        # shutdown() runs in a worker thread of a coroutine payload's own framework and the payload waits for it
+        fl = "trio" if ending == "shutdown_trio_worker" else "asyncio"
+        gen["payloads"].append({"id": "trigger", "flavour": fl, "program": [["shutdown_in_worker"]], "cleanup": {"kind": "none"}})
         script.append(["adopt", "trigger"])
     elif ending == "shutdown_double":
         for _ in range(rnd.choice([1, 2])):
@@ -288,7 +300,9 @@ def judge(case, run, result):
             break
         result.count("ending_" + ending)
         fails = [e for e in run.of("fail", gen=g) if e["seq"] < ended["seq"]]
-        if ending in ("shutdown_outside", "shutdown_thread", "shutdown_double", "sigint", "kbint_asyncio", "kbint_thread", "kbint_trio"):
+        if ending in ("shutdown_outside", "shutdown_thread", "shutdown_double", "shutdown_trio_worker", "shutdown_asyncio_worker", "sigint", "kbint_asyncio", "kbint_thread", "kbint_trio"):
+            if meta["population"] == "cross" and run.of("call", gen=g, op="execute"):
+                result.count("endings_with_trio_payloads_calling_into_asyncio")
             if meta.get("grumpy") and run.of("fail-on-cancel", gen=g):
                 for fl in {p["flavour"] for p in gen["payloads"] if p["id"] in {e["pid"] for e in run.of("fail-on-cancel", gen=g)}}:
                     result.count("shutdowns_with_%s_payload_failing_on_cancellation" % fl)
@@ -347,7 +361,7 @@ def run_shard(spec):
 
 def finish(total, tier):
     need = ["histories_completed", "polling_loops_checked", "restarts_of_the_same_runner_instance", "concurrent_accepts_rejected", "shutdown_calls_returned", "race_outcome_returned", "forced_late_stop_schedules_checked",
-            "shutdowns_with_asyncio_payload_failing_on_cancellation", "shutdowns_with_trio_payload_failing_on_cancellation"]
+            "endings_with_trio_payloads_calling_into_asyncio", "shutdowns_with_asyncio_payload_failing_on_cancellation", "shutdowns_with_trio_payload_failing_on_cancellation"]
     need += ["ending_" + e for e in ENDINGS] + ["restarts_after_" + e for e in ENDINGS]
     for name in need:
         if not total.counters.get(name) and not total.violations:
